@@ -68,6 +68,8 @@ EXTRA = [
     ('split_two_node_mask', 'two_node', dict(T=4), ('mask', [1, 1, 1, 0]), dict(split='2h')),
     ('split_contract_storage_date', 'contract_storage', dict(T=4, storage_kw=dict(start_eq_end=True)), ('date', 2, 30), dict(split='2h')),
     ('split_two_node_date_on_grid_point', 'two_node', dict(T=4), ('date', 2, 0), dict(split='2h')),
+    ('split_first_interval_without_assets_date', 'windows', dict(T=6, wins=((2, 6), (2, 5), (3, 6))), ('date', 3, 0), dict(split='2h')),
+    ('split_first_interval_without_assets_mask', 'windows', dict(T=6, wins=((2, 6), (2, 5), (3, 6))), ('mask', [1, 1, 1, 0, 1, 0]), dict(split='2h')),
     ('split_two_node_date_on_interval_border', 'two_node', dict(T=4), ('date', 1, 0), dict(split='2h')),
     ('split_orderbook_last_mask', 'orderbook', dict(T=4, ob_last=True, orders=((0, 1, 2.0), (2, 4, -1.5), (3, 4, 1.0))), ('mask', [0, 1, 1, 0]), dict(split='2h')),
     ('storage_starts_after_window_no_simult', 'contract_storage', dict(T=4, win_s=(2, 4), storage_kw=dict(no_simult_in_out=True)), ('mask', [1, 1, 0, 0]), {}),
